@@ -23,11 +23,12 @@ func TestVerif(t *testing.T) {
 			"Each execution runs the call undisturbed and then once more per retry pause with the context cancelled at half of that pause (WithCancel+AfterFunc, and WithTimeout), replaying the same answers. " +
 			"Checked per call: body bytes received on every attempt = original (prefix when the fake stopped reading), attempts per send <= MaxRetry+1, every gap between attempts of a send within [MinWait,MaxWait], = the pause the policy granted (recorded by a pass-through policy wrapper) and = clamp(Retry-After) after 429 Retry-After:N, " +
 			"zero virtual time anywhere else, no attempt after a non-retryable answer, returned response = last answer, cancellation => ctx error at the cancel instant and no later attempt; any panic is a violation. " +
+			"Also: the token service answers 503 to the first one or two token requests (the pauses between token requests are cancelled at their half like the others). " +
 			"(b) plain sweep of GenericPolicy.Retry + ExponentialBackoff: attempt 0..70 x backoff {1ms,250ms} x factor {1,2,10} x jitter {0,0.1,0.5,1} x (MinWait,MaxWait) {(0,0),(200ms,3s),(3s,200ms),(2s,10s)} x MaxRetry {0,3,71} x 18 answers (incl. seven Retry-After forms). " +
 			"non-trivial = (a) distinct (configuration, first three answers) of executions in which a request with a body reached the registry more than once, (b) distinct parameter tuples for which a pause was computed and judged",
 		Assumptions: []string{
 			"the jitter draw (math/rand/v2 redirected to the engine's vrand) always returns its low extreme 0; the high extreme is not selectable in this engine version, the bounds clause is insensitive to it because of the clamp",
-			"the token service always answers 200 with a fresh token at once; only registry answers are enumerated",
+			"apart from the token-request-pause scenario the token service answers 200 with a fresh token at once; only registry answers are enumerated",
 			"Retry-After values that are not a positive number of seconds fitting time.Duration (0, negative, text, HTTP-date, on a non-429 answer) are judged for the bounds only; contradictory bounds (MaxWait < MinWait) only for panics and retry grants",
 			"the statement does not demand that a retryable failure is retried: declined retries are counted, not judged",
 		},
@@ -67,6 +68,7 @@ func jobs(tier string) []driver.Job {
 	var out []driver.Job
 	out = append(out, sweepJob())
 	out = append(out, exampleJob())
+	out = append(out, tokenPauseJob())
 	alphabet := quickAlphabet
 	npol := 1
 	if th {
